@@ -277,6 +277,34 @@ def eval_template(case):
     return Outcome(True, sorted(classes), f[:2], key=case, evals=evals)
 
 
+def eval_long_chain(case):
+    """a grammar of ~1500 symbols, each reaching the next at the start of a production: accepted when the chain ends in a
+    terminal, GrammarIsRecursive when its last symbol goes back to the first - the size of a grammar is no input error"""
+    import ak.llparser as L
+    tokcfg, names = gk.tok_config(False, False)
+    n = case["n"]
+    prods = {"S%04d" % i: [("S%04d" % (i + 1), "WORD")] if i % 3 else [("S%04d" % (i + 1),)] for i in range(n)}
+    prods["S%04d" % n] = [("S0000", "NUM")] if case["cyclic"] else [("NUM",)]
+    f = []
+    try:
+        L.LLParser(gk.TOKENIZER, productions=prods, start_symbol_name="S0000", **tokcfg)
+        res = "accepted"
+    except L.GrammarIsRecursive:
+        res = "recursive"
+    except Exception as e:   # noqa
+        res = "raises " + type(e).__name__
+    want = "recursive" if case["cyclic"] else "accepted"
+    if res != want:
+        f.append(("long_chain_of_symbols_" + res.replace(" ", "_"), f"{n + 1} symbols, cyclic={case['cyclic']}: {res}, expected {want}"))
+    return Outcome(True, ["chain_of_%d_symbols" % (n + 1)], f, key=case)
+
+
+def long_chain_cases():
+    for n in (50, 1500):
+        for cyclic in (False, True):
+            yield {"n": n, "cyclic": cyclic}
+
+
 def template_cases():
     for kind in ("list", "map", "seq"):
         for item in ("word", "word_or_empty", "empty_or_word", "num_word_or_empty"):
@@ -294,6 +322,8 @@ def parts(tier):
     k = 1 if tier == "quick" else 40
     return [
         Part("regressions", evaluate, enumerate=regression_cases, exhaustive=True),
+        Part("long_chains", eval_long_chain, enumerate=long_chain_cases, exhaustive=True,
+             note="chains of 51 and 1501 symbols, acyclic and cyclic"),
         Part("templates_terminate", eval_template, enumerate=template_cases, exhaustive=True,
              note="template symbols with (nullable) non-terminal items / delimiters; every token string up to length 3-4"),
         Part("skeletons_all_namings", evaluate, strategy=st_case, examples=4000 * k,
